@@ -321,6 +321,57 @@ func genC03(tier string) []Scenario {
 			})})
 		}
 	}
+	// ---------------- A1d: sizes beyond the small ones — a chain of 10 nodes wired front to back
+	// and back to front, and one node with a default edge plus 9 named ones (10 transitions)
+	for _, form := range []string{"chain-10 wired front to back", "chain-10 wired back to front", "fan-out default+9 named"} {
+		form := form
+		var h *H
+		body := func() {
+			var ns []*spec
+			for i := 0; i < 11; i++ {
+				ns = append(ns, &spec{id: fmt.Sprintf("n%02d", i), kind: kLog, n: 1})
+			}
+			root := &spec{id: "flow", flow: &flowSpec{start: ns[0], edges: map[*spec]map[flyt.Action]*spec{}}}
+			h = newH(root)
+			var acts []flyt.Action
+			switch form {
+			case "fan-out default+9 named":
+				acts = append(acts, flyt.DefaultAction, "")
+				setEdge(root, ns[0], flyt.DefaultAction, ns[10])
+				for i := 1; i <= 9; i++ {
+					a := flyt.Action(fmt.Sprintf("n%d", i)) // sorts after "default": the default edge is connected first
+					acts = append(acts, a)
+					setEdge(root, ns[0], a, ns[i])
+				}
+			default:
+				acts = []flyt.Action{"go"}
+				for i := 0; i < 9; i++ {
+					setEdge(root, ns[i], "go", ns[i+1])
+				}
+			}
+			h.menu = routingMenu(acts, 12, 12)
+			var f *flyt.Flow
+			if form == "chain-10 wired back to front" {
+				// built by hand: the Connect calls run from the last edge to the first
+				f = flyt.NewFlow(h.build(ns[0]))
+				for i := 8; i >= 0; i-- {
+					f.Connect(h.build(ns[i]), "go", h.build(ns[i+1]))
+				}
+				h.nodes[root] = f
+			} else {
+				f = h.build(root).(*flyt.Flow)
+			}
+			for r := 0; r < 2; r++ {
+				h.runFlowOnce(f, fmt.Sprintf("run %d", r+1))
+			}
+		}
+		out = append(out, Scenario{Name: "tables sizes " + form, Body: body, Check: stdCheck(func() string {
+			if h == nil {
+				return "?"
+			}
+			return strings.Join(h.hist, " | ")
+		})})
+	}
 	// ---------------- A2: Connect histories (overwrites, nil, chaining form)
 	maxLen, maxMore := 2, 1
 	if th {
@@ -395,6 +446,62 @@ func genC03(tier string) []Scenario {
 			h.runFlowOnce(f, "run 2")
 		}
 		out = append(out, Scenario{Name: fmt.Sprintf("connect-histories first-op=%d length=%d", first, length), Body: body, Check: stdCheck(func() string {
+			if h == nil {
+				return "?"
+			}
+			return strings.Join(h.hist, " | ")
+		})})
+	}
+	// ---------------- A2b: longer wiring histories — connect, connect, RUN, connect, connect, RUN,
+	// connect, RUN over {skip, Connect(n0|n1, "a", nil|n0|n1|n2)} with every node answering "a":
+	// all 9^5 histories, three runs of the same flow object each
+	{
+		var h *H
+		body := func() {
+			ns := []*spec{{id: "n0", kind: kLog, n: 1}, {id: "n1", kind: kLog, n: 1}, {id: "n2", kind: kLog, n: 1}}
+			root := &spec{id: "flow", flow: &flowSpec{start: ns[0], edges: map[*spec]map[flyt.Action]*spec{}}}
+			h = newH(root)
+			h.menu = func(hh *H, c call) []answer {
+				if c.ph != pPost {
+					return []answer{{val: nil}}
+				}
+				total := 0
+				for _, v := range hh.visits {
+					total += v
+				}
+				if total >= 4 {
+					return []answer{{action: "zz"}}
+				}
+				return []answer{{action: "a"}}
+			}
+			real := []flyt.Node{h.build(ns[0]), h.build(ns[1]), h.build(ns[2])}
+			f := flyt.NewFlow(real[0])
+			h.nodes[root] = f
+			wire := func() {
+				op := core.Choose(9)
+				if op == 8 {
+					return // skip
+				}
+				from, to := op/4, op%4
+				var toNode flyt.Node
+				var toSpec *spec
+				if to > 0 {
+					toNode, toSpec = real[to-1], ns[to-1]
+				}
+				core.Logf("Connect(%s,\"a\",%d)", ns[from].id, to-1)
+				f.Connect(real[from], "a", toNode)
+				setEdge(root, ns[from], "a", toSpec)
+			}
+			wire()
+			wire()
+			h.runFlowOnce(f, "run 1")
+			wire()
+			wire()
+			h.runFlowOnce(f, "run 2")
+			wire()
+			h.runFlowOnce(f, "run 3")
+		}
+		out = append(out, Scenario{Name: "connect-histories three runs, five wiring steps (9^5 histories)", Body: body, Check: stdCheck(func() string {
 			if h == nil {
 				return "?"
 			}
